@@ -210,6 +210,7 @@ class World:
             b = lib.call(fresh_fn)
             n2 = self.warn.n
             self._compare(d, a, b, budget_hit=(n1 > n0 or n2 > n1))
+            self._compare_never_used(d, a)
         if self.adopt_results and a.kind == lib.EXPR and expr_result and len(self.models) < 14 and M.size(to_model(a.value)) <= 300:
             self.adopt(a.value)
         return a
@@ -244,6 +245,37 @@ class World:
         if ka != kb:
             raise Mismatch("history", f"{d['op']}:{a.kind}/{b.kind}",
                            f"operation {self.describe(d)} on the used, shared objects gave {a!r} but a never-used copy gives {b!r}")
+
+    def _compare_never_used(self, d, a):
+        """The fresh copy above replays the derivative object's route (whether as_expression() was called), because at
+        INCOMPLETE points the routes legitimately differ (DESIGN 5.3).  At a COMPLETE point every route raises DomainError
+        exactly where the expression is undefined (C06/C07), so there a derivative object on which as_expression() has been
+        called must not return a number where a truly never-used object (same constructor arguments, nothing else)
+        raises DomainError.  One direction only: the other one (used raises, never-used returns) is what KF1 and the
+        rounding of folded constants next to a pole produce on the simplified route (DESIGN 5.2, 5.3)."""
+        op = d["op"]
+        if a.kind != lib.NUM:
+            return
+        if op == "deriv_at":
+            rec = self.derivs[d["j"]]
+            kind, var, early, i = rec["kind"], rec["var"], rec["early"], rec["i"]
+            if not rec["asexpr"] or early or kind not in ("Partial", "Derivative"):
+                return
+            bare = d.get("bare")
+        elif op == "partial_asexpr_at":
+            kind, var, early, i, bare = "Partial", d.get("var"), False, d["i"], None
+        else:
+            return
+        m = self.models[i]
+        P = dec_point(d["point"])
+        if not set(M.variables(m)) <= set(P):
+            return
+        c = lib.call(lambda: self._deriv_at(self._construct(kind, fresh(m), var, early), kind, P, var, bare))
+        self.never_used_compared = getattr(self, "never_used_compared", 0) + 1
+        if c.kind == lib.DOM:
+            raise Mismatch("history", f"{op}:number-where-never-used-raises",
+                           f"operation {self.describe(d)} on a derivative object whose as_expression() was called earlier gave "
+                           f"{a!r} but a never-used {kind} of a never-used copy gives {c!r} (complete point)")
 
     def _values_agree(self, e1, e2):
         from . import refeval as RE
